@@ -27,6 +27,41 @@ def backoff_delays(spec: dict) -> List[float]:
     return out
 
 
+def raw_delays(spec: dict) -> List[float]:
+    """The successive delays before jitter and cap."""
+    out, a, b = [], 1, 2
+    for k in range(spec['attempts']):
+        if spec['family'] == 'periodic':
+            out.append(spec['interval'])
+        elif spec['family'] == 'exponential':
+            out.append(spec['base'] * spec['factor'] ** k)
+        else:
+            out.append(a * spec['multiplier'])
+            a, b = b, a + b
+    return out
+
+
+def pauses_explained_by_draws(pauses: List[float], raws: List[float], cap: Optional[float], draws: List[float],
+                              used: set, tol: float = 1e-9) -> bool:
+    """For a jitter function whose every draw is a fresh recognisable value: is every pause `cap(raw delay + j)` for a draw
+    j that no other pause (of this or an earlier request: `used`, updated in place) has used? The order and the number
+    of the draws are left free; only re-using one draw for several pauses, or a value that was never drawn, is refused."""
+    def fits(k, i):
+        v = raws[k] + draws[i]
+        if cap is not None:
+            v = min(cap, v)
+        return abs(v - pauses[k]) <= tol
+    if len(pauses) > len(raws):
+        return False
+    cands = {k: [i for i in range(len(draws)) if i not in used and fits(k, i)] for k in range(len(pauses))}
+    for k in sorted(cands, key=lambda k: len(cands[k])):      # candidate sets are singletons or nested: smallest first
+        free = [i for i in cands[k] if i not in used]
+        if not free:
+            return False
+        used.add(free[0])
+    return True
+
+
 def run(delays: Optional[List[float]], codes, exc_types: Tuple[type, ...], script: List[dict], is_notification: bool):
     """Returns (events, index of the final attempt). events: 'send' and ('sleep', seconds).
     `delays` None = no strategy in effect."""
